@@ -129,6 +129,20 @@ class VInt(V):
     def __repr__(self): return 'VInt(%s)' % self.term
 
 
+class VLazyLen(VInt):
+    """len(s) of a regular string value: the Length term is only built when arithmetic needs it
+    (building it for a suffix view would introduce the word equation)."""
+    def __init__(self, of):
+        self.len_of = of
+        self._term = None
+
+    @property
+    def term(self):
+        if self._term is None:
+            self._term = z3.Length(self.len_of.term)
+        return self._term
+
+
 class VBool(V):
     T = BOOL
     def __init__(self, term):
@@ -144,6 +158,38 @@ class VStr(V):
         self.char_at = char_at        # provenance: (string term, 'first'|'last')
     def terms(self): return [self.term]
     def __repr__(self): return 'VStr(%s)' % self.term
+
+
+class VLazySuffix(VStr):
+    """s[k:] of a string variable with constant k >= 0: kept symbolic-by-provenance so that
+    single-string predicates on it stay regular; the word-equation term is made on demand."""
+    def __init__(self, ctx, base, k, cls=None):
+        self._ctx, self.base, self.k = ctx, base, k
+        self.char_at = None
+        self._term = None
+
+    @property
+    def term(self):
+        if self._term is None:
+            from . import strings as S
+            self._term = S.slice_(self._ctx, self.base, z3.IntVal(self.k), None)
+        return self._term
+
+
+class VLazyChar(VStr):
+    """s[0] / s[-1] of a regular string value: compared against constants it yields a regular
+    constraint on s; the substring term is only built when something else needs it."""
+    def __init__(self, of, where):
+        self.of, self.where = of, where
+        self.char_at = (of, where)
+        self._term = None
+
+    @property
+    def term(self):
+        if self._term is None:
+            t = self.of.term
+            self._term = z3.SubString(t, 0 if self.where == 'first' else z3.Length(t) - 1, 1)
+        return self._term
 
 
 class VBytes(V):
